@@ -178,9 +178,10 @@ class Gen:
             elif k < 0.75:
                 op = ['slice', iv(), iv(), r.choice([None, 1, -1, 2, -2, 3, 0])]
             elif k < 0.83:
-                op = ['startswith', other]
+                # the argument spelled as a Path, as the bare T expression, or (a single plain segment) as a string
+                op = ['startswith', other, r.choice(['path', 'path', 't', 'text', 'bad'])]
             elif k < 0.9:
-                op = ['eq', other]
+                op = ['eq', other, r.choice(['path', 'path', 't', 'ne', 'ne-t', 'other-type'])]
             elif k < 0.96:
                 op = ['concat', ['T'] + other[1:]]
                 ops[0] = 'T'     # Path(p, q) accepts Path arguments rooted at T only
@@ -418,10 +419,25 @@ def run_impl(case):
             return {'list': [seq_key(x) for x in p[op[1]].path_t.__ops__]}
         if op[0] == 'slice':
             return {'list': [seq_key(x) for x in p[slice(op[1], op[2], op[3])].path_t.__ops__]}
+        form = op[2] if len(op) > 2 else 'path'
         if op[0] == 'startswith':
-            return {'bool': p.startswith(mk(op[1]))}
+            o = op[1]
+            if form == 'bad':
+                try:
+                    p.startswith(len(o))
+                except TypeError:
+                    return {'bool': p.startswith(mk(o)), 'bad_arg': 'TypeError'}
+                return {'bool': p.startswith(mk(o)), 'bad_arg': 'accepted'}
+            if form == 'text' and o[0] == 'T' and len(o) == 3 and o[1] == 'P':
+                return {'bool': p.startswith(o[2])}          # a string argument is ONE plain segment (Path(text) does not split on dots)
+            return {'bool': p.startswith(mk(o).path_t if form == 't' else mk(o))}
         if op[0] == 'eq':
-            return {'bool': p == mk(op[1])}
+            o = mk(op[1])
+            if form == 'other-type':
+                return {'bool': p == o, 'other_type': [p == tuple(p.values()), p != tuple(p.values()), p == 5]}
+            if form in ('ne', 'ne-t'):
+                return {'bool': not (p != (o.path_t if form == 'ne-t' else o))}
+            return {'bool': p == (o.path_t if form == 't' else o)}
         if op[0] == 'concat':
             return {'list': [seq_key(x) for x in glom.Path(p, mk(op[1])).path_t.__ops__]}
         if op[0] == 'stars':
@@ -543,6 +559,10 @@ def model_dump_term(case):
 
 
 def direct_oracle(case, out):
+    if out.get('bad_arg') == 'accepted':
+        return 'Path.startswith(<int>) did not raise TypeError'
+    if 'other_type' in out and out['other_type'] != [False, True, False]:
+        return 'a Path compares equal to a non-Path value: %r' % (out['other_type'],)
     if case['kind'] != 'repr' or 'ir' not in out:
         return None
     want = {'root': case['root'], 'steps': case['steps']}
